@@ -147,7 +147,7 @@ theorem NF_arithSub {x y r : Expr} (hx : NF x = true) (hy : NF y = true) (h : ar
     NF r = true := by
   unfold arithSub at h
   split at h
-  · cases h; exact hy
+  · exact NF_arithNeg h
   · obtain ⟨ny, hny, h⟩ := bind_eq_ok.mp h
     exact NF_arithAdd hx (NF_arithNeg hny) h
   · obtain ⟨ny, hny, h⟩ := bind_eq_ok.mp h
